@@ -45,6 +45,12 @@ func genCanonValue(r *Rng, pf *PField, inDomain bool) (string, bool) {
 		return canonTimeVal(fitEpochUnix+secs, 0), true
 	case kindLocal:
 		off := (r.Intn(57) - 28) * 1800 // +-14 h in half hours
+		switch r.Intn(4) {
+		case 0:
+			off += r.Intn(5) - 2 // a few seconds next to a half-hour zone
+		case 1:
+			off = r.Intn(2*50400+1) - 50400 // any second within +-14 h
+		}
 		wall := int64(0x10000000 + r.U64()%0xE0000000)
 		// instant such that wall clock = instant + off
 		return canonTimeVal(fitEpochUnix+wall-int64(off), off), true
